@@ -84,6 +84,10 @@ func (c *Config) Merge(from interface{}, options ...Option) error {
 }
 
 func mergeConfig(opts *options, to, from *Config) Error {
+	if to.fields == nil {
+		// the zero value of Config (a Config not created by New)
+		to.fields = &fields{}
+	}
 	if err := mergeConfigDict(opts, to, from); err != nil {
 		return err
 	}
